@@ -54,6 +54,9 @@ def _explore_once(run_fn, hints, max_paths):
                 p = Path(c, "unsupported", str(e))
             except SolverUnknown as e:
                 p = Path(c, "unknown", str(e))
+            except RecursionError:
+                # unbounded recursion of the interpreted code over a symbolic structure
+                p = Path(c, "unsupported", "recursion limit reached while interpreting (the code recurses over a symbolic structure)")
             except PathAbort:
                 p = None
         finally:
